@@ -100,6 +100,14 @@ def main():
             shutil.rmtree(sb, ignore_errors=True)
             return p.returncode, [json.loads(l) for l in p.stdout.decode().splitlines() if l.startswith("{")], p.stderr.decode("utf8", "replace")
         vec_out = pmap(run_vec, range(nv))
+        # several guest threads ask for both vectors at the same time, straight after wasiInit (long vectors: the calls overlap): each gets the
+        # vectors given at initialisation
+        for asan_ in (True, False):
+            tio, tse, trc = wasi.run_threads_io(wd, tier, asan=asan_)
+            if tio is None:
+                v.deviation(wasi.asan_sig(tse) or "args:threads:crash", {"rc": trc, "stderr": tse[-800:]})
+            elif tio["bad_args"]:
+                v.deviation("args:threads:wrong-vector", tio)
         # the same calls in a memory of 65536 pages: placements around and above 2^31 and up to the last byte of a 32-bit address space
         def run_big(j):
             argv, env = cfgs[j]
@@ -326,6 +334,35 @@ def main():
                                  "starts": [{"tid": s["tid"] % 2 ** 31, "arg": s["arg"], "mod": 0, "shared": bool(s["shared"]), "parentinstance": bool(s["parent"])} for s in h["starts"]],
                                  "cell": h["cell"]})
                     owner.append(("spawn", K, h))
+        # a module that exports no function at all (only its memory) and spawns from its start function: there is no wasi_thread_start, so the
+        # spawn answers with a negative number - and the process lives on
+        d = os.path.join(wd, "ts-noexports")
+        os.makedirs(d)
+        nx = {"types": [{"p": ["i32"], "r": ["i32"]}, {"p": [], "r": []}],
+              "imports": [{"mod": "wasi", "name": "thread-spawn", "kind": "func", "type": 0, "ret": b32(0)}],
+              "funcs": [{"type": 1, "locals": [], "body": [["i32.const", b32(72)], ["i32.const", b32(7)], ["call", 0], ["i32.store", 2, 0],
+                                                           ["i32.const", b32(76)], ["i32.const", b32(1)], ["i32.store", 2, 0], ["end"]]}],
+              "memory": {"min": 1, "max": 1, "shared": True}, "start": 1, "exports": [{"name": "memory", "kind": "memory", "idx": 0}]}
+        open(os.path.join(d, "ts.wasm"), "wb").write(wasm_encode.encode(machine.enc_module(nx)))
+        rc, so, se = run([w2c2, "-t", "1", "ts.wasm", "ts.c"], cwd=d, timeout=60)
+        if rc != 0:
+            raise common.MachineryError("cannot translate the export-less spawn module: " + se[-400:])
+        open(os.path.join(d, "main.c"), "w").write(
+            '#include <stdio.h>\n#include <stdlib.h>\n#include "ts.h"\n#include "wasi.h"\nvoid trap(Trap t) { fprintf(stderr, "trap %d\\n", (int)t); abort(); }\n'
+            'static tsInstance root;\nwasmMemory* wasiMemory(void* i) { return ts_memory((tsInstance*)i); }\n'
+            'int main(void) { char* none[1] = {NULL}; wasiInit(0, none, none); tsInstantiate(&root, NULL);\n'
+            '  printf("%d %d\\n", (int)i32_load(ts_memory(&root), 72), (int)i32_load(ts_memory(&root), 76)); return 0; }\n')
+        rc, so, se = run(["gcc", "-O1", "-w", "-I", d, "-I", os.path.join(REPO, "w2c2"), "-I", os.path.join(REPO, "wasi"), *wasi.WDEFS, "main.c", "ts.c", os.path.join(REPO, "wasi", "wasi.c"),
+                          "-o", "nx", "-lpthread", "-lm"], cwd=d, timeout=300)
+        if rc != 0:
+            raise common.MachineryError("cannot build the export-less spawn program: " + se[-800:])
+        rc, so, se = run([os.path.join(d, "nx")], timeout=60)
+        try:
+            r_, done_ = [int(x) for x in so.split()]
+        except ValueError:
+            r_, done_ = None, None
+        if rc != 0 or r_ is None or r_ >= 0 or done_ != 1:
+            v.deviation("spawn:module-without-function-exports", {"rc": rc, "stdout": so[-100:], "stderr": se[-300:]})
         # several modules in one process: the start function of the SPAWNING module runs, whatever was spawned before
         d = os.path.join(wd, "ts-multi")
         os.makedirs(d)
